@@ -272,7 +272,7 @@ pub fn check(case: &Case, st: &mut Stats) -> Result<(), Violation> {
 }
 
 pub fn run(ctx: &Ctx, st: &mut Stats) -> Vec<Violation> {
-    let mut v = run_proptest(ctx, st, "random", ctx.cases(150_000, 3_000_000), strategy, check);
+    let mut v = run_proptest(ctx, st, "random", ctx.cases(150_000, 20_000_000), strategy, check);
     if !v.is_empty() {
         return v;
     }
